@@ -7,7 +7,7 @@
          insert_card/remove_card have no error exit after a mutation.
   C16.W  walk/get wiring: visit_children* enumerate iter_children*, get_card* descend with get_child*.
 """
-from cao.facts import callee_names, DefUse, op_local, short, hir_walk, hir_callee
+from cao.facts import callee_names, DefUse, op_local, op_place, op_const, short, hir_walk, hir_callee
 from cao.rules import Rule, ok, bad, undecided, note
 from cao import cardshape as cs
 from cao import mirutil as mu
@@ -21,9 +21,14 @@ EXPLANATION = (
     "number of enumerated children, and every index outside the shape to report failure without an effect. C16.A is "
     "a path rule on the MIR of Module::swap_cards/insert_card/remove_card: every error exit is reached with an even "
     "number of completed replace_card calls, the second undoing the first (same index operand, card = the first's "
-    "result); no error exit follows a mutation. C16.W checks by resolved callee identity that the walkers number "
-    "children with iter_children(_mut).enumerate() and that get_card(_mut) descends with get_child(_mut), so walk "
-    "indices resolve iff C16.S holds. Not decided: equality of edit sequences with a tree-edit model (history property)."
+    "result); a call counts as failed (not completed) on the paths that take the Err branch of its own result (`?`, "
+    "match, if let, is_err); no error exit follows a mutation other than through the failure branch of a mutator that "
+    "is a no-op when it fails (insert_child/remove_child by C16.S, private helpers by the same analysis). C16.W checks "
+    "by resolved callee identity, following private helpers of the same impl, that the walkers number children with "
+    "iter_children(_mut).enumerate(), that get_card(_mut) descends with get_child(_mut) and that the top level card is "
+    "looked up with the first component of the index (data flow from first()/split_first().0/[0]/a function returning "
+    "such a value, e.g. begin()), so walk indices resolve iff C16.S holds. Helper functions called by the accessors are "
+    "inlined by the case-split evaluator. Not decided: equality of edit sequences with a tree-edit model (history property)."
 )
 ASSUMPTIONS = [
     "Vec::insert/remove/get and slice get behave as documented (std is trusted)",
@@ -222,6 +227,226 @@ def origin_call_block(fn, du, local, depth=0):
     return None
 
 
+def _switch_target(t, value):
+    """Successor of a switch terminator taken for discriminant `value` (None if the value is not possible)."""
+    listed = {v: tgt for v, tgt in t["targets"]}
+    if value in listed:
+        return listed[value]
+    return t["otherwise"]
+
+
+def failure_edges(f, du, call_block):
+    """CFG edges (s, t) that are taken only if the Result/Option produced by the call in `call_block` is Err/None (the
+    callee reported failure). Recognised: a switch on the discriminant of the value (directly, or after `?`'s
+    Try::branch, map_err/map/ok_or adaptors, which all keep Ok-ness), i.e. `match r {Ok..,Err..}`, `if let`, `let else`,
+    `?`; and a switch on r.is_err()/is_ok()/is_none()/is_some()."""
+    edges = set()
+    for bi, b in enumerate(f.blocks):
+        t = b["term"]
+        if t["k"] != "switch":
+            continue
+        dl = op_local(t["discr"])
+        if dl is None:
+            continue
+        d = du.sole_def(dl)
+        if d is None:
+            continue
+        if d[2] == "assign" and d[3]["rv"]["k"] == "discr":
+            pl = d[3]["rv"]["place"]
+            if any(x["k"] != "deref" for x in pl["p"]):
+                continue
+            src = pl["l"]
+            if origin_call_block(f, du, src) != call_block:
+                continue
+            ty = f.local_ty(src)
+            while ty.startswith("&"):
+                ty = ty[1:].lstrip()
+                if ty.startswith("mut "):
+                    ty = ty[4:]
+            if ty.startswith("std::option::Option<"):
+                failv = 0
+            elif ty.startswith("std::result::Result<") or ty.startswith("std::ops::ControlFlow<"):
+                failv = 1
+            else:
+                continue
+            edges.add((bi, _switch_target(t, failv)))
+        elif d[2] == "call":
+            names = [n.rsplit("::", 1)[-1] for n in callee_names(d[3]["func"])]
+            if any(n in ("is_err", "is_none") for n in names):
+                failv = 1
+            elif any(n in ("is_ok", "is_some") for n in names):
+                failv = 0
+            else:
+                continue
+            a0 = op_local(d[3]["args"][0]) if d[3]["args"] else None
+            if a0 is None or origin_call_block(f, du, a0) != call_block:
+                continue
+            edges.add((bi, _switch_target(t, failv)))
+    return edges
+
+
+def _copy_root(du, local):
+    """follow plain copies/moves of a local back to where the value was produced"""
+    seen = set()
+    while local not in seen:
+        seen.add(local)
+        d = du.sole_def(local)
+        if d is None or d[2] != "assign":
+            return local
+        rv = d[3]["rv"]
+        if rv["k"] == "use" and rv["op"].get("k") in ("copy", "move") and not rv["op"]["place"]["p"]:
+            local = rv["op"]["place"]["l"]
+            continue
+        return local
+    return local
+
+
+def index_equality_guards(f, du, repl_blocks):
+    """Blocks of the calls that compare the two CardIndex operands for equality and whose "equal" outcome leaves the
+    function without reaching a replace_card: `a == b` / `a != b` (PartialEq), `match a.cmp(b) {Equal => ..}` (Ord::cmp is
+    Equal iff the indices are equal), `a.partial_cmp(b)` matched against Some(Equal). The outcome is located by the
+    switch on the call's result (bool, or the Ordering discriminant 0 = Equal); an eq/ne whose result is not switched on
+    directly is still accepted as a comparison (dominance is checked by the caller, as before)."""
+    out = []
+    for bi, t in mu.calls(f):
+        tys = t.get("arg_tys", [])
+        if len(tys) != 2 or not all("CardIndex" in x for x in tys):
+            continue
+        lasts = set(n.rsplit("::", 1)[-1] for n in callee_names(t["func"]))
+        names = callee_names(t["func"])
+        if any(n.endswith("PartialEq::eq") or n.endswith("PartialEq::ne") for n in names):
+            kind = "ne" if "ne" in lasts else "eq"
+        elif any(n.endswith("Ord::cmp") for n in names):
+            kind = "cmp"
+        elif any(n.endswith("PartialOrd::partial_cmp") for n in names):
+            kind = "partial_cmp"
+        else:
+            continue
+        if t["dest"]["p"]:
+            continue
+        d = t["dest"]["l"]
+        equal_targets = []
+        for si, b in enumerate(f.blocks):
+            st = b["term"]
+            if st["k"] != "switch":
+                continue
+            x = op_local(st["discr"])
+            if x is None:
+                continue
+            x = _copy_root(du, x)
+            if kind in ("eq", "ne"):
+                truth = kind == "eq"          # value of the call's result that means "equal"
+                dx = du.sole_def(x)
+                if x != d and dx is not None and dx[2] == "assign" and dx[3]["rv"]["k"] == "un" and dx[3]["rv"]["op"] == "Not":
+                    inner = op_local(dx[3]["rv"]["x"])
+                    if inner is not None and _copy_root(du, inner) == d:
+                        x = d
+                        truth = not truth
+                if x != d:
+                    continue
+                equal_targets.append(_switch_target(st, 1 if truth else 0))
+            else:
+                dx = du.sole_def(x)
+                if dx is None or dx[2] != "assign" or dx[3]["rv"]["k"] != "discr":
+                    continue
+                pl = dx[3]["rv"]["place"]
+                if _copy_root(du, pl["l"]) != d:
+                    continue
+                proj = [(e["k"], e.get("variant"), e.get("name")) for e in pl["p"] if e["k"] != "deref"]
+                want = [] if kind == "cmp" else [("downcast", "Some", None), ("field", None, "0")]
+                if proj != want:
+                    continue
+                equal_targets.append(_switch_target(st, 0))   # Ordering::Equal = 0
+        if equal_targets:
+            if all(not (f.cfg.reachable_from(tg) & repl_blocks) for tg in equal_targets):
+                out.append(bi)
+        elif kind in ("eq", "ne"):
+            out.append(bi)
+    return out
+
+
+def reachable_avoiding_edges(cfg, start, edges):
+    seen = {start}
+    stack = [start]
+    while stack:
+        a = stack.pop()
+        for s_ in cfg.succ[a]:
+            if (a, s_) in edges or s_ in seen:
+                continue
+            seen.add(s_)
+            stack.append(s_)
+    return seen
+
+
+def _vis_module(g):
+    """module path a private item is restricted to ('' for pub(crate), None for public items)"""
+    v = g.raw.get("vis", "Public")
+    if not v.startswith("Restricted("):
+        return None
+    inner = v[v.index("~") + 1:].strip().rstrip(")") if "~" in v else ""
+    inner = inner.rstrip(")")
+    return inner.split("::", 1)[1] if "::" in inner else ""
+
+
+def same_scope_private(F, f, names):
+    """The callee (if any) among `names` that is a private helper of f: a function (associated or free) whose visibility
+    is restricted to a module that contains f - i.e. code only f's own module can call - and whose body is in the
+    facts. pub(crate)/public functions are interfaces of their own, not helpers."""
+    for n in names:
+        g = F.fn(n, required=False)
+        if g is None or g.mir is None or g.is_closure or g.short == f.short:
+            continue
+        m = _vis_module(g)
+        if not m:
+            continue
+        if not (f.short.startswith(m + "::") and g.short.startswith(m + "::")):
+            continue
+        return g
+    return None
+
+
+MUT = ("std::vec::Vec::insert", "std::vec::Vec::remove", "compiler::card::Card::insert_child",
+       "compiler::card::Card::remove_child", "std::mem::replace", "core::mem::replace", "std::vec::Vec::push",
+       "std::vec::Vec::swap_remove")
+# mutators that report failure and are no-ops when they fail (decided by C16.S: failure without an effect)
+NOOP_ON_FAILURE = ("compiler::card::Card::insert_child", "compiler::card::Card::remove_child")
+
+
+def mutation_sites(F, g, _stack=()):
+    """(sites, late) of function g: sites = [(block, term, noop_on_failure)] of the calls that mutate the module (direct
+    mutators, Result::map adaptors holding the mutating closure, private helpers that contain a mutation); late = the
+    sites after which an error exit is still reachable other than through the site's own failure branch."""
+    gerr = mu.error_exit_blocks(g)
+    gerr = set(b for b in gerr if g.blocks[b]["term"]["k"] != "unreachable" and not (g.blocks[b]["term"]["k"] == "call" and g.blocks[b]["term"]["target"] is None))
+    du = DefUse(g)
+    sites = []
+    helper_late = []
+    for bi, t in mu.calls(g):
+        names = callee_names(t["func"])
+        if any(n in MUT for n in names):
+            sites.append((bi, t, any(n in NOOP_ON_FAILURE for n in names)))
+        elif any(n.endswith("Result::map") for n in names):
+            # closures passed to Result::map (replace_card) hold the mutation: count them as mutation at the adaptor call
+            sites.append((bi, t, False))
+        else:
+            h = same_scope_private(F, g, names)
+            if h is not None and h.short not in _stack and len(_stack) < 4:
+                hs, hlate = mutation_sites(F, h, _stack + (g.short,))
+                if hs:
+                    # a helper that itself mutates last is a no-op when it fails; otherwise its failure follows a mutation
+                    sites.append((bi, t, not hlate))
+                    helper_late.extend(hlate)
+    late = list(helper_late)
+    for bi, t, noop in sites:
+        if t["target"] is None:
+            continue
+        avoid = failure_edges(g, du, bi) if noop else set()
+        after = reachable_avoiding_edges(g.cfg, t["target"], avoid)
+        if after & gerr:
+            late.append((t["ln"], sorted(after & gerr)))
+    return sites, late
+
+
 def rule_a(F):
     res = []
     f = F.fn("compiler::module::Module::swap_cards")
@@ -239,6 +464,7 @@ def rule_a(F):
         try:
             n_paths = 0
             problems = []
+            fail_edges = {b: failure_edges(f, du, b) for b in repl}
             for e in sorted(err & cfg.reach):
                 for path in paths_to(cfg, {e}):
                     n_paths += 1
@@ -250,7 +476,12 @@ def rule_a(F):
                         a0 = t["args"][0]
                         if a0.get("k") in ("copy", "move"):
                             failed = origin_call_block(f, du, a0["place"]["l"])
-                    completed = [b for b in calls if b != failed]
+                    # ... and so does an exit reached through the Err branch of a `match`/`if let`/is_err() on that result
+                    steps = set(zip(path, path[1:]))
+                    failed_set = set(b for b in calls if fail_edges[b] & steps)
+                    if failed is not None:
+                        failed_set.add(failed)
+                    completed = [b for b in calls if b not in failed_set]
                     if len(completed) % 2 != 0:
                         problems.append("error exit at line %s is reached after %d completed replace_card call(s) (line %s) without compensation"
                                         % (f.blocks[e]["term"].get("ln") or _ln(f, e), len(completed), ",".join(str(repl[b]["ln"]) for b in completed)))
@@ -274,20 +505,15 @@ def rule_a(F):
             res.append(undecided("C16.A", "C16/A/swap_cards/error-paths-restore", f.loc(), str(e)))
     # swapping a card with itself: the take-out / put-back protocol would exchange the card with its own placeholder, so
     # equal indices have to be answered before the first replace_card
-    eqs = []
-    for bi, b in enumerate(f.blocks):
-        t = b["term"]
-        if t["k"] == "call" and any(n.endswith("PartialEq::eq") or n.endswith("PartialEq::ne") for n in callee_names(t["func"])):
-            tys = t.get("arg_tys", [])
-            if len(tys) == 2 and all("CardIndex" in x for x in tys):
-                eqs.append(bi)
+    eqs = index_equality_guards(f, du, set(repl))
     first_repl = [b for b in repl if not any(cfg.dominates(o, b) and o != b for o in repl)]
     key = "C16/A/swap_cards/same-index-is-identity"
     if eqs and repl and all(any(cfg.dominates(e, r) for e in eqs) for r in first_repl):
         res.append(ok("C16.A", key, f.loc(), "equal indices are tested before the first card is taken out"))
     else:
         res.append(bad("C16.A", key, f.loc(),
-                       "swap_cards takes the first card out (leaving a placeholder) without having compared the two indices: for equal "
+                       "swap_cards takes the first card out (leaving a placeholder) without having compared the two indices (==, or the Equal "
+                       "outcome of cmp, returning before any replace_card): for equal "
                        "indices the card is exchanged with its own placeholder - the call returns Ok and the card is replaced by ScalarNil"))
     # a swap is refused on structural grounds only by looking at whole indices: a test that compares the in-function paths of
     # the two indices without their `function` component treats cards of different functions as relatives
@@ -312,28 +538,12 @@ def rule_a(F):
     else:
         res.append(ok("C16.A", key, f.loc(), "no refusal is decided on partial indices"))
     # insert_card / remove_card: no error exit after a mutation
-    MUT = ("std::vec::Vec::insert", "std::vec::Vec::remove", "compiler::card::Card::insert_child",
-           "compiler::card::Card::remove_child", "std::mem::replace", "core::mem::replace", "std::vec::Vec::push",
-           "std::vec::Vec::swap_remove")
     for name in ("insert_card", "remove_card", "replace_card"):
         g = F.fn("compiler::module::Module::" + name)
-        gerr = mu.error_exit_blocks(g)
-        gerr = set(b for b in gerr if g.blocks[b]["term"]["k"] != "unreachable" and not (g.blocks[b]["term"]["k"] == "call" and g.blocks[b]["term"]["target"] is None))
-        muts = [(bi, t) for bi, t in mu.calls(g) if any(n in MUT for n in callee_names(t["func"]))]
-        # closures passed to Result::map (replace_card) hold the mutation: count them as mutation at the adaptor call
-        for bi, t in mu.calls(g):
-            if any(n.endswith("Result::map") for n in callee_names(t["func"])):
-                muts.append((bi, t))
+        muts, late = mutation_sites(F, g)
         if not muts:
             res.append(undecided("C16.A", "C16/A/%s/mutation-is-last-fallible-step" % name, g.loc(), "no mutation call found"))
             continue
-        late = []
-        for bi, t in muts:
-            if t["target"] is None:
-                continue
-            after = g.cfg.reachable_from(t["target"])
-            if after & gerr:
-                late.append((t["ln"], sorted(after & gerr)))
         if late:
             res.append(bad("C16.A", "C16/A/%s/mutation-is-last-fallible-step" % name, g.loc(late[0][0]),
                            "an error return is reachable after the module was mutated at line %s" % late[0][0]))
@@ -374,11 +584,13 @@ def _same_origin(f, du, a, b):
 # C16.W
 # ---------------------------------------------------------------------------------------------------
 
+FIRST = "<first index component>"
+
 WIRING = [
     ("compiler::module::visit_children", ["compiler::card::Card::iter_children", "std::iter::Iterator::enumerate", "compiler::module::CardIndex::set_current_index", "compiler::module::CardIndex::push_subindex", "compiler::module::CardIndex::pop_subindex"]),
     ("compiler::module::visit_children_mut", ["compiler::card::Card::iter_children_mut", "std::iter::Iterator::enumerate", "compiler::module::CardIndex::set_current_index", "compiler::module::CardIndex::push_subindex", "compiler::module::CardIndex::pop_subindex"]),
-    ("compiler::module::Module::get_card", ["compiler::card::Card::get_child", "compiler::module::CardIndex::begin"]),
-    ("compiler::module::Module::get_card_mut", ["compiler::card::Card::get_child_mut", "compiler::module::CardIndex::begin"]),
+    ("compiler::module::Module::get_card", ["compiler::card::Card::get_child", FIRST]),
+    ("compiler::module::Module::get_card_mut", ["compiler::card::Card::get_child_mut", FIRST]),
     ("compiler::module::Module::remove_card", ["compiler::card::Card::get_child_mut", "compiler::card::Card::remove_child"]),
     ("compiler::module::Module::insert_card", ["compiler::card::Card::get_child_mut", "compiler::card::Card::insert_child"]),
     ("compiler::module::Module::replace_card", ["compiler::module::Module::get_card_mut"]),
@@ -387,24 +599,309 @@ WIRING = [
 ]
 
 
+def private_closure(F, f):
+    """f and the private functions of the same impl (module for free fns) it reaches through calls: the code a
+    maintainer may have moved out of f without changing who is responsible for it."""
+    cg = F.callgraph
+    out = [f]
+    seen = {f.short}
+    i = 0
+    while i < len(out):
+        g = out[i]
+        i += 1
+        bodies = [g] + list(F.closures_of.get(g.short, []))
+        for b in bodies:
+            for _bi, names, _t in cg.sites.get(b.short, []):
+                h = same_scope_private(F, f, names)
+                if h is not None and h.short not in seen:
+                    seen.add(h.short)
+                    out.append(h)
+    return out
+
+
+# value-preserving adaptors on the way from "first element of the index" to the lookup's index operand
+_ADAPT = ("branch", "ok_or", "ok_or_else", "map", "copied", "cloned", "into", "unwrap", "expect", "from", "try_into", "unwrap_or_default")
+_VIEW = ("deref", "deref_mut", "as_slice", "as_mut_slice", "as_ref", "as_mut", "borrow", "borrow_mut")
+
+
+def _value_defs(du, local):
+    """whole-local definitions of `local`, not counting the ones that only carry an error (`?` residual, Err/None)"""
+    keep = []
+    for d in du.defs.get(local, []):
+        if d[3].get("place", d[3].get("dest"))["p"]:
+            continue
+        if d[2] == "call" and any(n.endswith("from_residual") for n in callee_names(d[3]["func"])):
+            continue
+        if d[2] == "assign" and (mu.is_err_aggregate(d[3]["rv"]) or mu.is_none_aggregate(d[3]["rv"])):
+            continue
+        keep.append(d)
+    return keep
+
+
+def _strip_ref(ty):
+    ty = ty.strip()
+    while ty.startswith("&"):
+        ty = ty[1:].lstrip()
+        if ty.startswith("mut "):
+            ty = ty[4:].lstrip()
+    return ty
+
+
+def root_arg(f, du, place):
+    """The argument of f that `place` is a part / a view of (fields, derefs, borrows, Deref/as_slice views); None if
+    it is not derived from exactly one argument that way."""
+    seen = set()
+    while True:
+        if any(x["k"] not in ("deref", "field") for x in place["p"]):
+            return None
+        local = place["l"]
+        if local in seen:
+            return None
+        seen.add(local)
+        if 1 <= local <= f.mir["arg_count"] and not du.defs.get(local):
+            return local
+        d = du.sole_def(local)
+        if d is None:
+            return None
+        if d[2] == "call":
+            lasts = [n.rsplit("::", 1)[-1] for n in callee_names(d[3]["func"])]
+            if not any(n in _VIEW for n in lasts) or len(d[3]["args"]) != 1:
+                return None
+            place = op_place(d[3]["args"][0])
+        else:
+            rv = d[3]["rv"]
+            if rv["k"] in ("use", "cast"):
+                place = op_place(rv["op"])
+            elif rv["k"] in ("ref", "rawptr"):
+                place = rv["place"]
+            else:
+                return None
+        if place is None:
+            return None
+
+
+def _is_zero(du, op):
+    if op_const(op) is not None:
+        return op_const(op) == 0
+    l = op_local(op)
+    if l is None:
+        return False
+    kind, payload = du.trace_back(l)
+    return kind == "const" and payload.get("val") == 0
+
+
+def first_component(F, f, du, local, depth=0):
+    """Is the value of `local` the first element of the index slice of one of f's arguments?
+    -> ('first', arg local) | ('no', why) | None (not understood).
+    Accepted ways to take it: slice first()/split_first().0/get(0)/[0], or a crate function whose return value is
+    (by the same analysis) the first element of a slice of its argument (CardIndex::begin and anything like it), seen
+    through `?`, ok_or, map, copies, casts, derefs."""
+    tup0 = False
+    seen = set()
+    while True:
+        if local in seen:
+            return None
+        seen.add(local)
+        ds = _value_defs(du, local)
+        if len(ds) != 1:
+            return None
+        _bi, _si, kind, pl = ds[0]
+        if kind == "assign":
+            rv = pl["rv"]
+            if rv["k"] in ("use", "cast"):
+                if rv["op"].get("k") == "const":
+                    return ("no", "a constant")
+                place = op_place(rv["op"])
+            elif rv["k"] in ("ref", "rawptr"):
+                place = rv["place"]
+            elif rv["k"] == "agg" and rv["agg"]["k"] == "adt" and rv["agg"].get("variant") in ("Ok", "Some") and len(rv["ops"]) == 1:
+                if rv["ops"][0].get("k") == "const":
+                    return ("no", "a constant")
+                place = op_place(rv["ops"][0])
+            else:
+                return None
+            if place is None:
+                return None
+            dc = None
+            for n, x in enumerate(place["p"]):
+                if x["k"] == "deref":
+                    continue
+                if x["k"] == "downcast":
+                    dc = x["variant"]
+                    continue
+                if x["k"] == "field":
+                    if dc in ("Continue", "Some", "Ok") and x["name"] == "0":
+                        dc = None
+                        continue
+                    if dc is None and n == 0 and _strip_ref(f.local_ty(place["l"])).startswith("("):
+                        if x["name"] == "0":
+                            tup0 = True
+                            continue
+                        return ("no", "component .%s of a tuple" % x["name"])
+                    return None
+                if x["k"] == "index":
+                    base = {"l": place["l"], "p": place["p"][:n]}
+                    if not _strip_ref(_place_ty_hint(f, base)).startswith("["):
+                        return None
+                    kind2, payload = du.trace_back(x["local"])
+                    if kind2 == "const" and payload.get("val") == 0:
+                        a = root_arg(f, du, base)
+                        return ("first", a) if a is not None else None
+                    return ("no", "an element other than the first")
+                return None
+            local = place["l"]
+            continue
+        # call
+        t = pl
+        names = callee_names(t["func"])
+        lasts = [n.rsplit("::", 1)[-1] for n in names]
+        args = t["args"]
+
+        def origin(op):
+            p0 = op_place(op)
+            if p0 is None:
+                return None
+            a = root_arg(f, du, p0)
+            return ("first", a) if a is not None else None
+        if any(n in ("core::slice::first", "core::slice::first_mut") for n in names):
+            return origin(args[0])
+        if any(n in ("core::slice::split_first", "core::slice::split_first_mut") for n in names):
+            return origin(args[0]) if tup0 else ("no", "the rest of split_first")
+        if any(n in ("core::slice::last", "core::slice::last_mut", "core::slice::split_last", "core::slice::split_last_mut") for n in names):
+            return ("no", "the last element")
+        if any(n in ("core::slice::get", "core::slice::get_mut", "std::ops::Index::index", "core::slice::get_unchecked") for n in names) and len(args) == 2:
+            if _is_zero(du, args[1]):
+                return origin(args[0])
+            return ("no", "an element other than the first")
+        if any(n in _ADAPT for n in lasts) and args:
+            p0 = op_place(args[0])
+            if p0 is None or p0["p"]:
+                return None
+            local = p0["l"]
+            continue
+        if depth < 4:
+            for n in names:
+                g = F.fn(n, required=False)
+                if g is None or g.mir is None or g.is_closure:
+                    continue
+                r = first_component(F, g, DefUse(g), 0, depth + 1)
+                if r is not None and r[0] == "first":
+                    if r[1] - 1 < len(args):
+                        return origin(args[r[1] - 1])
+                    return None
+                return r
+        return None
+
+
+def _place_ty_hint(f, place):
+    """type of a place that is a local seen through derefs only (enough for `(*indices)[i]`); '' otherwise"""
+    if all(x["k"] == "deref" for x in place["p"]):
+        return f.local_ty(place["l"])
+    return ""
+
+
+def top_level_lookup(F, fns):
+    """How the functions `fns` (a function and its private helpers) choose the top level card: for every lookup in the
+    function's card list (slice get/get_mut/index on [Card]) the origin of its index operand."""
+    out = []
+    for g in fns:
+        du = None
+        for bi, t in mu.calls(g):
+            names = callee_names(t["func"])
+            if not any(n in ("core::slice::get", "core::slice::get_mut", "std::ops::Index::index", "std::ops::IndexMut::index_mut") for n in names):
+                continue
+            tys = t.get("arg_tys", [])
+            if len(tys) != 2 or _strip_ref(tys[0]) not in ("[compiler::card::Card]", "std::vec::Vec<compiler::card::Card>") or len(t["args"]) != 2:
+                continue
+            du = du or DefUse(g)
+            l = op_local(t["args"][1])
+            if l is None:
+                r = ("no", "a constant") if t["args"][1].get("k") == "const" else None
+            else:
+                r = first_component(F, g, du, l)
+            if r is not None and r[0] == "first" and "CardIndex" not in g.local_ty(r[1]):
+                r = None
+            out.append((g, t, r))
+    return out
+
+
+def _json_fields(o, out):
+    if isinstance(o, dict):
+        if o.get("k") == "field" and "name" in o:
+            out.append(o["name"])
+        for v in o.values():
+            _json_fields(v, out)
+    elif isinstance(o, list):
+        for v in o:
+            _json_fields(v, out)
+
+
+def foreign_module_access(F, fns):
+    """[(fn, line)] of the places in `fns` and their closures that read the `submodules` field (the only way from a Module to
+    cards outside its own `functions`)."""
+    out = []
+    for g in fns:
+        for b in [g] + list(F.closures_of.get(g.short, [])):
+            if b.mir is None:
+                continue
+            for bl in b.blocks:
+                for st in list(bl["stmts"]) + [bl["term"]]:
+                    names = []
+                    _json_fields(st, names)
+                    if "submodules" in names:
+                        out.append((b, st.get("ln")))
+    return out
+
+
 def rule_w(F):
     res = []
     cg = F.callgraph
     for fn_name, needs in WIRING:
         f = F.fn(fn_name)
         callees = set()
-        for _bi, names, _t in cg.sites.get(f.short, []):
-            callees.update(names)
-        # closures of this function (map/ok_or_else closures may hold the calls)
-        for c in F.closures_of.get(f.short, []):
-            for _bi, names, _t in cg.sites.get(c.short, []):
+        fns = private_closure(F, f)
+        for g in fns:
+            for _bi, names, _t in cg.sites.get(g.short, []):
                 callees.update(names)
-        missing = [n for n in needs if n not in callees]
+            # closures of this function (map/ok_or_else closures may hold the calls)
+            for c in F.closures_of.get(g.short, []):
+                for _bi, names, _t in cg.sites.get(c.short, []):
+                    callees.update(names)
+        missing = [n for n in needs if n != FIRST and n not in callees]
         key = "C16/W/%s" % fn_name.rsplit("::", 1)[-1]
         if missing:
             res.append(bad("C16.W", key, f.loc(), "%s no longer goes through %s: walk indices and lookups are numbered by different code" % (f.name, ", ".join(m.rsplit("::", 1)[-1] for m in missing))))
-        else:
-            res.append(ok("C16.W", key, f.loc(), "uses " + ", ".join(n.rsplit("::", 1)[-1] for n in needs)))
+            continue
+        uses = [n.rsplit("::", 1)[-1] for n in needs if n != FIRST]
+        if FIRST in needs:
+            # the walkers report the position in the function's card list as the first component of an index: the lookup
+            # has to select the top level card with exactly that component (CardIndex::begin or any equivalent spelling)
+            looks = top_level_lookup(F, fns)
+            good = [x for x in looks if x[2] is not None and x[2][0] == "first"]
+            wrong = [x for x in looks if x[2] is not None and x[2][0] == "no"]
+            if wrong:
+                g, t, r = wrong[0]
+                res.append(bad("C16.W", key, g.loc(t["ln"]), "%s selects the top level card with %s instead of the first component of the index: walk indices and "
+                               "lookups are numbered by different code" % (f.name, r[1])))
+                continue
+            if not good or len(good) != len(looks):
+                res.append(undecided("C16.W", key, f.loc(), "could not establish that the top level card is selected with the first component of the index "
+                                     "(%d lookup(s) in the card list, %d understood)" % (len(looks), len(good))))
+                continue
+            uses.append("the first index component for the top level card")
+        if f.name in ("walk_cards", "walk_cards_mut"):
+            # A CardIndex is (position in self.functions, child path): it has no module component, so get_card(self, ..) can
+            # only resolve cards of the module's own functions. A walker (incl. its private helpers and closures) that reaches
+            # cards through another module's function list reports indices that resolve to a different card or to nothing.
+            foreign = foreign_module_access(F, fns)
+            if foreign:
+                g, ln = foreign[0]
+                res.append(bad("C16.W", key, g.loc(ln), "%s also visits cards that are not in self.functions (it reads `submodules` in %s): the reported "
+                               "CardIndex has no module component, get_card/replace_card on the walked module resolve it to a different card or fail"
+                               % (f.name, g.name)))
+                continue
+            uses.append("visits only the module's own functions")
+        res.append(ok("C16.W", key, f.loc(), "uses " + ", ".join(uses)))
     # CardIndex push/pop/set_current_index operate on the last element of `indices`
     return res
 
